@@ -19,7 +19,9 @@ const (
 	shCloneWith
 	shClone
 	shTreeReplaced
-	shHijack // a direct request whose handler takes over the connection (Writer().Hijack on a capable writer)
+	shHijack    // a direct request whose handler takes over the connection (Writer().Hijack on a capable writer)
+	shInfix     // a request matched directly by a route with a catch-all in the middle of its pattern
+	shIterBreak // an Iter.Reverse loop left at its first match, then a direct request
 	nShapes
 )
 
@@ -72,6 +74,7 @@ func SetupC12History() any {
 	must(r.Handle("GET", "/u/{id}", h))
 	must(r.Handle("GET", "/t/{id}/", h, fox.WithIgnoreTrailingSlash(true)))
 	must(r.Handle("GET", "/d/{id}/", h, fox.WithRedirectTrailingSlash(true)))
+	must(r.Handle("GET", "/f/*{id}/z", h))
 	st.r = r
 	return st
 }
@@ -90,6 +93,8 @@ func c12Request(shape, i int) *http.Request {
 		req.URL.Path = "/d/" + tok("p", i)
 	case shNoRoute:
 		req.URL.Path = "/nowhere/" + tok("p", i)
+	case shInfix:
+		req.URL.Path = "/f/" + tok("p", i) + "/z"
 	case shNoMethod:
 		req.Method = "POST"
 	case shOptions:
@@ -115,8 +120,10 @@ func HarnessC12History(st any) {
 		wantPattern, wantID := "", ""
 		wantScope := fox.RouteHandler
 		switch shape {
-		case shDirect, shLookup, shCloneWith, shClone, shTreeReplaced, shHijack:
+		case shDirect, shLookup, shCloneWith, shClone, shTreeReplaced, shHijack, shIterBreak:
 			wantPattern, wantID = "/u/{id}", tok("p", i)
+		case shInfix:
+			wantPattern, wantID = "/f/*{id}/z", tok("p", i)
 		case shIgnoredTsr:
 			wantPattern, wantID = "/t/{id}/", tok("p", i)
 		case shNoRoute:
@@ -157,6 +164,17 @@ func HarnessC12History(st any) {
 			w.WriteHeader(201 + i)
 			nw, werr := w.Write([]byte("body")[:1+i%3])
 			sym.Assert(werr == nil && nw == 1+i%3 && w.Status() == 201+i && w.Written() && w.Size() == 1+i%3, "the writer of the current request accepts and records this request's response")
+			// another user of the context pool inside the handler must get a context of its own
+			if lrt, lcx, _ := s.r.Lookup(c.Writer(), c12Request(shDirect, 6)); lcx != nil {
+				sym.Assert(lrt != nil && lcx.Param("id") == tok("p", 6), "a nested Lookup shows the looked-up request")
+				sym.Assert(c.Request() == req && c.Pattern() == wantPattern && c.Param("id") == wantID, "a nested Lookup leaves the handler's own context alone")
+				lcx.Close()
+			}
+			if wantID == "" && shape != shRedirect {
+				// a clone of a context without parameters, kept beyond the handler
+				s.clones = append(s.clones, cloneRec{c: c.Clone(), id: "", pattern: "", q: tok("q", i), hdr: tok("h", i), status: 201 + i, rhdr: tok("r", i)})
+				sym.Cover("Clone of a context without parameters")
+			}
 			switch shape {
 			case shHijack:
 				_, _, herr := w.Hijack()
@@ -212,6 +230,14 @@ func HarnessC12History(st any) {
 			}
 			serveCapture(s.r, req)
 			sym.Assert(seen, "handler ran")
+		case shIterBreak:
+			it := s.r.Iter()
+			for range it.Reverse(it.Methods(), req.Host, req.URL.Path) {
+				break // leave the loop at the first match
+			}
+			_, esc := serveCapture(s.r, req)
+			sym.Assert(esc == nil && seen, "handler ran")
+			sym.Cover("Iter.Reverse loop left early")
 		case shHijack:
 			gh := &ghost{sc: &script{}, hdr: http.Header{}}
 			esc := panicsWith(func() { s.r.ServeHTTP(richW{gh, &capCalls{}}, req) })
@@ -230,7 +256,7 @@ func HarnessC12History(st any) {
 	// clones are stable deep copies of their own request
 	for _, cl := range s.clones {
 		c := cl.c
-		sym.Assert(c.Pattern() == cl.pattern && c.Param("id") == cl.id, "a Clone keeps its route and parameters after the original is reused")
+		sym.Assert(c.Pattern() == cl.pattern && c.Param("id") == cl.id && (cl.id != "" || len(collectParams(c)) == 0), "a Clone keeps its route and parameters after the original is reused")
 		sym.Assert(c.QueryParam("q") == cl.q && c.Header("X-Tok") == cl.hdr, "a Clone keeps its request data")
 		sym.Assert(c.Writer().Status() == cl.status, "a Clone keeps the writer status of its request")
 		sym.Assert(c.Writer().Header().Get("R-Tok") == cl.rhdr, "a Clone keeps the response headers of its request")
